@@ -1323,6 +1323,26 @@ func (e *Exec) checkPool(tag string) {
 	for _, ti := range e.pool {
 		add(ti)
 	}
+	// the pending pool, in the order the node itself yields it (the order its miner would pack), must be admissible on the
+	// state of the chain alone: every token input an unspent output of the chain or of an earlier pending transaction,
+	// every read at the version current at that point ("frozen" is not judged: it depends on the ledger height at admission)
+	if len(e.badBlocks) == 0 {
+		if txs, err := e.w.Main.S.GetUnconfirmedTx(false); err == nil {
+			s := e.w.SpecAt(tip).clone()
+			for _, tx := range txs {
+				ti, ok := e.w.TxByID[string(tx.Txid)]
+				if !ok {
+					continue
+				}
+				t := e.w.Txs[ti]
+				if why := s.admissible(t, 1<<40); why != "" && why != "frozen" {
+					e.violate("pending-tx-not-replayable:"+why, fmt.Sprintf("after %s: pending transaction %d is not admissible (%s) on the chain state of block %d followed by the pending transactions the pool yields before it", tag, ti, why, tip), "")
+					break
+				}
+				s.apply(t)
+			}
+		}
+	}
 }
 
 // checkIrrevChain: C17 — after a non-pruning walk (successful or refused) every block at height <= irreversible height
